@@ -88,6 +88,14 @@ fn gen(rng: &mut Rng, k: u64) -> DocD {
             l.ox = rng.range(-3, w as i64) as i32;
             l.oy = rng.range(-2, bh as i64) as i32;
             l.visible = rng.chance(3, 4);
+        } else {
+            // the base layer too can be hidden, transparent or shifted (also as the only layer of the document)
+            l.visible = rng.chance(9, 10);
+            l.alpha = rng.chance(1, 6);
+            if rng.chance(1, 10) {
+                l.ox = rng.range(-2, 3) as i32;
+                l.oy = rng.range(-1, 2) as i32;
+            }
         }
         // sometimes the base layer stores only its top rows: the lower part of the picture then comes from offset layers alone
         let stored_rows = if li == 0 && rng.chance(1, 4) { rng.usize(lh as usize) as i32 } else { lh };
@@ -175,7 +183,7 @@ impl Prop for C12 {
         "C12"
     }
     fn rule(&self) -> &'static str {
-        "documents of 1..=4 layers (alpha, offset, hidden; base layer sometimes storing only its top rows or shorter than the document) up to 24x12 cells whose font slot 0 cycles through every built-in font page 0..=42 and every SAUCE font (plus up to 3 extra slots with other pages), cells over all 256 glyphs with blank glyphs 0/32/255 and the solid block over-represented, colours from the 16 DOS colours plus RGB palette entries, bold, both settings of normalize_whitespaces: Buffer::render_to_rgba of the document and of ColorOptimizer::optimize(document) must be byte-identical and of the same size; the first differing pixel is mapped back to its cell. distinct_nontrivial = distinct (font set, whitespace option, layer shapes) documents plus distinct (font page, glyph) pairs rendered"
+        "documents of 1..=4 layers (alpha, offset, hidden - the base layer too, also as the only layer; base layer sometimes storing only its top rows or shorter than the document) up to 24x12 cells whose font slot 0 cycles through every built-in font page 0..=42 and every SAUCE font (plus up to 3 extra slots with other pages), cells over all 256 glyphs with blank glyphs 0/32/255 and the solid block over-represented, colours from the 16 DOS colours plus RGB palette entries, bold, both settings of normalize_whitespaces: Buffer::render_to_rgba of the document and of ColorOptimizer::optimize(document) must be byte-identical and of the same size; the first differing pixel is mapped back to its cell. distinct_nontrivial = distinct (font set, whitespace option, layer shapes) documents plus distinct (font page, glyph) pairs rendered"
     }
     fn meta(&self, ctx: &Ctx) -> Value {
         json!({"floor_evaluations": 1000, "floor_distinct": ctx.tier.pick(3000u64, 20000u64),
